@@ -152,6 +152,18 @@ CHECKS['C01'] = dict(
          'than 5 elements, predicates other than position/last().',
     technique='SMT-based symbolic execution (CrossHair/z3): shapes and templates enumerated, labels and positions symbolic, vs XDM reference evaluator',
     design='DESIGN.md §4 C01')
+CHECKS['C02'] = dict(
+    text='The real tree builders are executed symbolically on pure-Python ElementTree inputs whose attribute counts, namespace-map '
+         'size (with/without xml), optional text/tail chunks, comment presence and root kind are solver variables: node count = one per '
+         'element/attribute/in-scope namespace/comment/non-None text chunk, positions unique and strictly increasing in document '
+         'order, lazily created namespace and attribute nodes inside their element\'s gap before the first child, parent/children '
+         'links consistent, string values = concatenated descendant text; union/intersect/except, is, <<, >>, root, innermost, '
+         'outermost on a 4-element tree with symbolic labels agree with identity and preorder.',
+    note='Trusted: CrossHair models, pure-Python ElementTree. Known finding C02-string-value-order (mixed-content string value not in '
+         'document order) is excluded from the main condition and kept as a witness. Out: real lxml objects (stand-in not claimed), '
+         'document-level sibling comments/PIs, trees beyond the enumerated shapes.',
+    technique='SMT-based symbolic execution (CrossHair/z3) of build_node_tree and node operators with symbolic counts/strings/labels',
+    design='DESIGN.md §4 C02')
 NOT_APPLICABLE = {
     'C04': 'Quantifies over program syntax and hash seeds: no value domain to make symbolic; symbolic source text does not get through '
            'the tokenizer regex under CrossHair (600 CPU-s, len<=2, no verdict); a table-level z3 check would verify a model of the '
